@@ -110,6 +110,14 @@ Proof.
 Qed.
 Print Assumptions C14_id_roundtrip.
 
+(* hash-to-point (try-and-increment, as modelled and compared with bn256 HashToPoint on real digests)
+   returns a point of the curve, so H(m) is a legitimate G1 element; negation stays on the curve *)
+Theorem C14_hash_on_curve : forall d, hash_to_g1 d <> G1Nil -> sig_is_valid (hash_to_g1 d) = true.
+Proof. exact hash_to_g1_valid. Qed.
+Theorem C14_neg_on_curve : forall x y, on_curve x y = true -> on_curve x (fsub 0 y) = true.
+Proof. exact neg_on_curve. Qed.
+Print Assumptions C14_hash_on_curve.
+
 (* ---- the code before the fixes: the property was false (witnesses re-checked by the kernel) ---- *)
 Theorem C14_overlong_refuted :
   exists (hs : g1) (b : bytes), g1_wf hs /\ b <> sig_serialize hs /\
